@@ -218,27 +218,29 @@ theorem byte_parser_is_record_machine (P : Profile) (limit : Nat) (cont : DecSt 
 
 /-- **Whole-file framing.** Any list of items that starts with a file_id definition and its data
     record and fits (each data record carries what the definition live for its local type declares),
-    laid out as a FIT writer does (14-byte header with CRC, records, file CRC) and followed by
+    laid out as a FIT writer does (a header of any of the three kinds readers accept — 12 bytes,
+    14 bytes with a zero CRC field, 14 bytes with its CRC — then records, then the file CRC) and followed by
     anything: if the record machine accepts the items, `Decode` succeeds on those bytes and returns
     exactly the record machine's state — the File with every message routed, the definition table,
     the timestamp reference and the counters — with the file CRC recorded. Together with the
     per-field theorems above: every field of every message of every well-formed file holds the
     value its own wire bytes denote. -/
-theorem whole_file_framing (P : Profile) (o : Opts) (g : Globals) (proto profile : Nat)
+theorem whole_file_framing (P : Profile) (o : Opts) (k : HdrKind) (g : Globals) (proto profile : Nat)
     (d0 : DefMsg) (b0 : Bool) (fs dev : List Bytes) (rest : List Item) (tail : Bytes) (stop : Stop) (st' : DecSt)
     (hp : proto < 256) (hp2 : proto / 16 ≤ protoMajorMax)
     (hwf0 : DefnWF d0 b0) (hg : d0.global = mnFileId) (hkn : P.known mnFileId = true)
     (hlen : (serialize (.defn d0 b0 :: .data d0.localT fs dev :: rest)).length < 4294967296)
     (hfit : ItemsFitD P (List.replicate 16 none) (.defn d0 b0 :: .data d0.localT fs dev :: rest))
-    (hrun : runItems P (afterHeader g proto profile (serialize (.defn d0 b0 :: .data d0.localT fs dev :: rest)).length).hdr g
-      (.defn d0 b0 :: .data d0.localT fs dev :: rest) = .ok st') :
+    (hrun : runItems P (afterHeader k g proto profile (serialize (.defn d0 b0 :: .data d0.localT fs dev :: rest)).length).hdr g
+      (.defn d0 b0 :: .data d0.localT fs dev :: rest)
+      (afterHeader k g proto profile (serialize (.defn d0 b0 :: .data d0.localT fs dev :: rest)).length).crc = .ok st') :
     (decodeSpec P o .full g
-      (frameBytes proto profile (serialize (.defn d0 b0 :: .data d0.localT fs dev :: rest)) ++ tail) stop).1 =
+      (frameBytesK k proto profile (serialize (.defn d0 b0 :: .data d0.localT fs dev :: rest)) ++ tail) stop).1 =
       finalize o (okOut { st' with
         crc := 0#16,
-        file := st'.file.map fun f => { f with crc := (Crc.checksum (frameHdr proto profile
+        file := st'.file.map fun f => { f with crc := (Crc.checksum (frameHdr k proto profile
           (serialize (.defn d0 b0 :: .data d0.localT fs dev :: rest)).length ++
           serialize (.defn d0 b0 :: .data d0.localT fs dev :: rest))).toNat } }) :=
-  decode_frame_ok P o g proto profile d0 b0 fs dev rest tail stop st' hp hp2 hwf0 hg hkn hlen hfit hrun
+  decode_frame_ok P o k g proto profile d0 b0 fs dev rest tail stop st' hp hp2 hwf0 hg hkn hlen hfit hrun
 
 end Fit.Props.C02
